@@ -11,4 +11,8 @@ var harnesses = map[string]func(){
 	"C10NoHook":       C10NoHook,
 	"C07ErrFlow":      C07ErrFlow,
 	"C07ErrFlowDeep":  C07ErrFlowDeep,
+	"C18ParseArgs":    C18ParseArgs,
+	"C18NoInput":      C18NoInput,
+	"C18Generate":     C18Generate,
+	"C15Run":          C15Run,
 }
